@@ -12,6 +12,7 @@ Decided:
   R18.5  rows: task list sorted by sequence number, leaf filter control dependent on leafTasksOnly, one
          body line per task of the list, one cell per column
   R18.6  row filters are interpreted: a filter stored as text is not decided by the truthiness of its spelling
+  R18.7  every Report.generate() rebuilds the intermediate table before any format writer runs
 Not decided: cell text = formatted model value for concrete values.
 """
 from __future__ import annotations
@@ -205,6 +206,68 @@ def run(ctx: Ctx):
              for l in own_nodes(gl))
     ctx.ob("R18.5", f"{gl.qual}: one cell per column", gl, ok, "for column in columns: add_cell" if ok else "cells are not generated one per column",
            key="R18.5|_generate_task_line|cells")
+    # ---------------------------------------------------------------- R18.7 every generation rebuilds the table
+    rg = repo.func("Report.generate")
+    grg = cfg_of(rg)
+    build = [n for n in grg.nodes if n.ast is not None and n.kind == "stmt" and any(
+        isinstance(c, ast.Call) and norm(c.func) == "self.generate_intermediate_format" for c in ast.walk(n.ast))]
+    writers = [n for n in grg.nodes if n.ast is not None and n.kind == "stmt" and any(
+        isinstance(c, ast.Call) and norm(c.func).startswith("self._generate_") for c in ast.walk(n.ast))]
+    if not build or not writers:
+        raise AnchorMissing("Report.generate: table build / format writers not found")
+    dom = grg.dominators()
+    for wnode in writers:
+        ok = any(b.id in dom[wnode.id] for b in build)
+        ctx.ob("R18.7", f"{rg.qual}: {norm(wnode.ast)[:40]} is preceded by a rebuild of the table on every path", (rg, wnode.ast), ok,
+               "generate_intermediate_format() dominates the writer" if ok else
+               "a format writer can run on a table built by an earlier generate() call: settings changed in between (time format, "
+               "leaf filter) and a schedule computed since are not reflected in the output",
+               key=key_of("R18.7", rg, None, "rebuild before " + norm(wnode.ast)[:40]))
+    ctx.floor("R18.7", 2)
+    # ---------------------------------------------------------------- R18.5 (cont.) no loop edits the list it walks
+    rreach = ctx.cg.reach([rg])
+    n_loops = 0
+    for fn in sorted(rreach, key=lambda f: f.key):
+        if not fn.module.rel.startswith("scriptplan/report/"):
+            continue
+        for l in own_nodes(fn):
+            if isinstance(l, ast.For) and isinstance(l.iter, (ast.Name, ast.Attribute)):
+                n_loops += 1
+                it = norm(l.iter)
+                edits = [c for st in l.body for c in ast.walk(st) if
+                         (isinstance(c, ast.Call) and isinstance(c.func, ast.Attribute) and c.func.attr in ("remove", "pop", "insert", "clear")
+                          and norm(c.func.value) == it) or
+                         (isinstance(c, ast.Delete) and any(isinstance(t, ast.Subscript) and norm(t.value) == it for t in c.targets))]
+                if edits:
+                    ctx.ob("R18.5", f"{fn.qual}: loop over {it} edits it ({norm(edits[0])[:40]})", (fn, l), False,
+                           "removing from the list that is being iterated skips the element after each removed one: rows that should "
+                           "have been filtered out stay in the report",
+                           key=key_of("R18.5", fn, None, f"edit-while-iterating {it}"))
+    ctx.ob("R18.5", f"no loop of report generation edits the list it iterates ({n_loops} loops)", rg, True, "row lists are filtered into new lists", nontrivial=False)
+    # ---------------------------------------------------------------- R18.4 (cont.) every own record is charged
+    scans = [l for l in own_nodes(gc) if isinstance(l, ast.For) and "slotTaskUsage" in norm(l.iter)]
+    if not scans:
+        raise AnchorMissing("getCost: scan of the per-task ledger records not found")
+    for l in scans:
+        accs = [x for st in l.body for x in ast.walk(st) if isinstance(x, ast.AugAssign) and isinstance(x.op, ast.Add)]
+        skips = [x for st in l.body for x in ast.walk(st) if isinstance(x, (ast.Continue, ast.Break))]
+        filters = []
+        for a_ in accs:
+            p_ = getattr(a_, "_parent", None)
+            while p_ is not None and p_ is not l:
+                if isinstance(p_, ast.If):
+                    t = p_.test
+                    own = isinstance(t, ast.Compare) and len(t.ops) == 1 and isinstance(t.ops[0], (ast.Eq, ast.Is)) and \
+                        "self.property" in (norm(t.left), norm(t.comparators[0]))
+                    if not own:
+                        filters.append(norm(t))
+                p_ = getattr(p_, "_parent", None)
+        ok = bool(accs) and not skips and not filters
+        ctx.ob("R18.4", f"{gc.qual}: ledger scan counts every record of this task", (gc, l), ok,
+               "inside the scan the only filter is the own-record test" if ok else
+               f"records of this task can be skipped inside the ledger scan ({[norm(x) for x in skips][:2] + filters[:2]}): seconds booked in a "
+               "slot whose table entry now names another task (shared final slot) are not charged, so cost != rate x booked time",
+               key=key_of("R18.4", gc, None, "record filter"))
     # ---------------------------------------------------------------- R18.6
     ev = repo.func("ReportBase._eval_expression")
     # what type does the parser store into the filter attributes?
